@@ -31,7 +31,9 @@ RULE = ('Hypothesis-generated base histories (dispatch / disable / enable / add_
         'delivered every pending occurrence (whose name had a listener when dispatched) to every handler '
         'registered then, an injected exception leaves the assignment as the same object, and every enabling '
         'assignment stays within a deterministic budget of executed lines. evaluations = base histories, '
-        'implementation_executions = runs incl. fault positions. Non-trivial = a base history with a release of '
+        'implementation_executions = runs incl. fault positions. '
+        'Handlers may be forgotten by the program (garbage-collected while events are pending) and replaced by new handler objects; a callback may disable dispatching and dispatch a further event. '
+        'Non-trivial = a base history with a release of '
         '>= 2 pending occurrences and (>= 2 listeners for one of them or >= 2 fault positions inside a release). '
         'Distinct = sha1 of the canonical JSON of the base history.')
 ASSUMPTIONS = [
